@@ -15,7 +15,7 @@ STATE_MONITORS = [C.sm_final]
 
 
 def run(i):
-    ex = C.explore(SCEN[i], MONITORS, STATE_MONITORS, quick=ck.quick, max_states=None if ck.quick else 300000)
+    ex = C.explore(SCEN[i], MONITORS, STATE_MONITORS, quick=ck.quick, max_states=None if ck.quick else 400000, jobs=0 if ck.quick else ck.jobs)
     return ex.summary()
 
 
@@ -39,7 +39,7 @@ def main():
     if ck.args.replay:
         replay(ck.args.replay)
     stats, samples = [], []
-    for sc, sm in zip(SCEN, ck.pmap(run, range(len(SCEN)))):
+    for sc, sm in zip(SCEN, (ck.pmap(run, range(len(SCEN))) if ck.quick else map(run, range(len(SCEN))))):
         ck.add_explorer_violations(sm, sc)
         samples += sm['samples'][:1]
         stats.append({k: v for k, v in sm.items() if k not in ('violation_list', 'samples')})
